@@ -11,7 +11,7 @@ from ..core import Failure
 from ..model import MP, GQ, cval, order_key, expvec, mp_close, first_diff
 
 ID = "C16"
-BUDGET = {"quick": 1500, "thorough": 5000}
+BUDGET = {"quick": 1500, "thorough": 12000}
 TECHNIQUE = ("Hypothesis-generated polynomial arrays x display option settings: an independent recursive-descent "
              "parser reads str(p)/repr(p) back over the exact model (round-trip oracle) and checks the printed term "
              "order against the reference monomial order; to_sympy -> polynomial round-trip for 0-d polynomials")
